@@ -936,8 +936,11 @@ class ComposerBinary(ComposerBase):
 
     def compose_ssh_mpint(self, value):
         negative = value < 0
-        length = value.bit_length() // 32
-        if value.bit_length() % 32:
+        bit_length = value.bit_length()
+        if negative:
+            bit_length = bit_length // 8 * 8 + 8  # size of the two's complement form built by _compose_mpint
+        length = bit_length // 32
+        if bit_length % 32:
             length += 1
 
         mpint_bytes = self._compose_mpint(value, length, self.byte_order)
